@@ -50,6 +50,15 @@ class VirtualLoop(asyncio.SelectorEventLoop):
             if n > max_iter:
                 raise Deadlock("event loop did not become idle (livelock)")
 
+    def step(self):
+        """Exactly one iteration of the loop: the handles that are ready now run, nothing else."""
+        self.call_soon(self.stop)
+        self.run_forever()
+
+    @property
+    def busy(self):
+        return bool(self._ready)
+
     def next_timer(self):
         whens = [h.when() for h in self._scheduled if not h.cancelled()]
         return min(whens) if whens else None
